@@ -20,6 +20,7 @@ rm -f /verif/target/fuzz-stats-$ID.json
 fuzz_build || { echo "INCONCLUSIVE property=$ID fuzz build failed (see /verif/target/fuzz-build.log)"; exit 2; }
 if [ "$TIER" = "thorough" ]; then R1=4000000; R2=3000000; R3=2000000; export VERIF_FUZZ_JOBS=${VERIF_FUZZ_JOBS:-16}; else R1=200000; R2=100000; R3=200000; fi
 SEEDS=/verif/target/c03_seeds
+fuzz_exec_dir "$ID" decode_any $SEEDS/extremes || exit $?
 fuzz_campaign "$ID" decode_any $R1 $SEEDS/decode_any /verif/regress/C03/fuzz-decode_any || exit $?
 fuzz_campaign "$ID" decode_struct $R2 /verif/regress/C03/fuzz-decode_struct || exit $?
 fuzz_campaign "$ID" dict_any $R3 $SEEDS/dict_any /verif/regress/C03/fuzz-dict_any || exit $?
